@@ -37,6 +37,7 @@ func init() {
 		"iface:context.Context.Done": mCtxDone,
 		"iface:sync.Locker.Lock":     mLock,
 		"iface:sync.Locker.Unlock":   mUnlock,
+		"(*sync.Once).Do":            mOnceDo,
 	}
 }
 
@@ -212,3 +213,82 @@ func constString(v ssa.Value) (string, bool) {
 }
 
 var _ = types.Typ
+
+
+// sync.Once.Do(f) (trusted): exactly one call of Do, over all goroutines, runs
+// f; every call of Do returns only after that run has completed (also when f
+// panicked). Model: ghost $oncedone[once]. Do is an interference point: another
+// goroutine may have completed the once before this call looks, in which case
+// the variables captured by f (written by that other run) have arbitrary
+// contents. If the once is not done, this call is the unique executor: f runs
+// here, then the once is done.
+func (x *Exec) onceDoneArr(st *State) Term { return x.heapGet(st, "$oncedone", SArr(SInt, SBool)) }
+
+func mOnceDo(x *Exec, cfg *Config, f *Frame, args []Val, pos token.Pos) (Val, []*Config) {
+	once := x.tv(args[0])
+	x.nilcheck(cfg, once, "once", pos)
+	st := cfg.st
+	d0 := Select(x.onceDoneArr(st), once)
+	others := x.d.Fresh("once-done-by-others", SBool)
+	d1 := Or(d0, others)
+	x.interfere(cfg)
+	var clo *CloV
+	switch v := args[1].(type) {
+	case *CloV:
+		clo = v
+	case TV:
+		if known, ok := st.clos[v.T.S]; ok {
+			clo = known
+		}
+	}
+	// what another executor may have written: the captured cells of f
+	if clo != nil {
+		for k, b := range clo.Binds {
+			a, ok := b.(AddrV)
+			if !ok || a.Kind != aCell {
+				continue
+			}
+			_ = k
+			arr := x.heapGet(st, a.Arr, SArr(SInt, x.sortOf(a.Elem)))
+			fresh := x.d.Fresh("once-cell", x.sortOf(a.Elem))
+			st.heap[a.Arr] = Store(arr, a.Base, Ite(And(others, Not(d0)), fresh, Select(arr, a.Base)))
+		}
+	}
+	st.heap["$oncedone"] = Store(x.onceDoneArr(st), once, d1)
+	if x.c != nil && x.c.Options["old"] == "section" {
+		cfg.old = cfg.st.clone()
+	}
+	// path B: already done: Do returns without running f
+	skip := cfg.clone()
+	skip.st.assume(d1)
+	skip.top().idx++
+	// path A: this call runs f
+	st.assume(Not(d1))
+	setDone := func(c *Config) {
+		c.st.heap["$oncedone"] = Store(x.onceDoneArr(c.st), once, True)
+	}
+	if clo != nil && len(clo.Fn.Blocks) > 0 {
+		body := clo.Fn
+		x.inlined[fullKey(body)] = true
+		x.indexDebug(body)
+		nf := &Frame{fn: body, regs: map[ssa.Value]Val{}, block: body.Blocks[0], depth: f.depth + 1, isDefer: true, onReturn: setDone}
+		for k, fv := range body.FreeVars {
+			if k < len(clo.Binds) {
+				nf.regs[fv] = x.coerceParam(cfg, clo.Binds[k], fv.Type())
+			}
+		}
+		// the model's caller advances f; the body frame runs first
+		cfg.frames = append(cfg.frames, nf)
+		return TupV{}, []*Config{skip}
+	}
+	// unknown function value: one counted call, may panic per contract option
+	fv, ok := args[1].(TV)
+	if !ok {
+		unsupported("sync.Once.Do with a non-scalar function value")
+	}
+	t := fv.T
+	x.oblige(cfg, "nil-func-call", "once body", Neq(t, IntLit(0)), nil, pos)
+	x.traceCall(cfg, target{unknown: &t}, nil)
+	setDone(cfg)
+	return TupV{}, []*Config{skip}
+}
